@@ -33,7 +33,7 @@ KIND_NAMES = {0: "DEPEND", 1: "DEPEND(tua=False)", 2: "LICENSE", 3: "RESTRICT", 
               5: "REQUIRED_USE", 6: "REQUIRED_USE(EAPI4)"}
 FLAGS = ("x", "y", "z", "w")
 
-ATOMS = ["a/b", "c/d", ">=e/f-1.2", "!g/h", "a/b:2", "=i/j-1*", "a/b[x]", "a/b[-y,x]", "g/h[y,x]",
+ATOMS = ["a/b", "c/d", ">=e/f-1.2", "!g/h", "!!g/h", "a/b:2", "=i/j-1*", "a/b[x]", "a/b[-y,x]", "g/h[y,x]",
          "a/b[x?]", "a/b[!x?]", "c/d[y=]", "c/d[!y=]", "e/f[x?,!y=,z]", "e/f[x(+)?,w(-)=]",
          "a/b[x?,x]", "!!c/d:0=[!z?,w]", "~k/l-2[z=,y?]"]
 BAD_ATOMS = ["foo", "a/b[", ">=a/b", "a/b[x??]", "a/b[]"]
@@ -130,10 +130,22 @@ class Impl:
 class Gen:
     def __init__(self, rng, kind, maxdepth):
         self.rng, self.kind, self.maxdepth = rng, kind, maxdepth
+        self.recent = []
         self.ops = {0: ["||", "("], 1: ["||", "("], 2: ["||", "("], 3: [], 4: [],
                     5: ["||", "(", "^^", "??"], 6: ["||", "(", "^^", "??"]}[kind]
 
     def leaf(self):
+        """a leaf; about a third of the time one that already occurs in this string (the same member
+        again inside a counting group or under a conditional), for atoms also its weak/strong blocker twin"""
+        out = self._leaf()
+        if self.recent and self.rng.random() < 0.35:
+            out = list(self.rng.choice(self.recent[-5:]))
+            if self.kind in (0, 1) and out[0].startswith("!") and self.rng.random() < 0.6:
+                out = [out[0][1:]] if out[0].startswith("!!") else ["!" + out[0]]
+        self.recent.append(out)
+        return out
+
+    def _leaf(self):
         r, k = self.rng, self.kind
         if k in (0, 1):
             return [r.choice(ATOMS)]
@@ -416,6 +428,10 @@ def main(chk: Check):
              (4, "a ->"), (4, "a -> )"), (0, ""), (0, "( )"), (0, "x? ( )"), (0, ")"), (0, "( a/b"),
              (2, "|| ( MIT )"), (2, "|| ( ( MIT BSD ) GPL-2 )"), (0, "( ( a/b c/d ) ( a/b ( c/d a/b:2 ) ) )"),
              (5, "|| ( a ^^ ( b c ) ?? ( x !y ) )"), (0, "!x? ( a/b[!x?] )"), (0, "?? ( a/b )"), (0, "a/b |"),
+             (5, "?? ( c a x? ( a ) )"), (5, "^^ ( a x? ( a ) )"), (5, "^^ ( a !y? ( a b ) x? ( b ) )"),
+             (5, "?? ( a || ( a b ) x? ( b ) )"), (5, "x? ( a ) a ?? ( a x? ( y? ( a ) ) )"),
+             (0, "!g/h x? ( !!g/h )"), (0, "!!g/h ( !g/h a/b ) y? ( !g/h )"), (0, "a/b[x?] x? ( a/b[x] )"),
+             (0, "|| ( a/b x? ( a/b c/d ) )"), (2, "|| ( MIT x? ( MIT ) ( MIT BSD ) )"),
              (5, "^^ ( a x? ( b c ) )"), (5, "?? ( x? ( a ) y? ( b ) c )"), (0, "a/b ||"), (0, "x?"), (0, "!? ( a/b )")]
     for k, s in fixed:
         strings.append((k, s.split(), s, "fixed"))
@@ -488,7 +504,7 @@ def main(chk: Check):
         # ---- eval stream
         if len(eval_cases) >= eval_budget:
             continue
-        flags = sorted({t.lstrip("!")[:-1] for t in stoks if t.endswith("?")} |
+        flags = sorted({t.lstrip("!")[:-1] for t in stoks if t.endswith("?") and not (kind >= 5 and t == "??")} |
                        {f for t in stoks if "[" in t for f in FLAGS if f in t.split("[", 1)[1]})
         flags = flags[:4]
         subsets = [c for n in range(len(flags) + 1) for c in itertools.combinations(flags, n)]
@@ -531,7 +547,8 @@ def main(chk: Check):
                                "evaluated_satisfied": b}
                         break
             if bad:
-                bad.update({"kind": KIND_NAMES[kind], "input": s, "use": list(use), "evaluated": er[1]})
+                bad.update({"kind": KIND_NAMES[kind], "input": s, "use": list(use), "evaluated": er[1],
+                            "origin": origin})
                 prop_fail.append(("eval-meaning", bad))
     chk.count("parse", len(parse_cases))
     chk.cov["eval_premise_unmet"] = premise_unmet
@@ -601,7 +618,11 @@ def main(chk: Check):
             chk.violation("property", detail)
         reported += 1
     if reported:
-        chk.note(f"{reported} property failures in total")
+        by_origin = {}
+        for cls, detail in prop_fail:
+            k = f"{cls}/{detail.get('origin', '-')}"
+            by_origin[k] = by_origin.get(k, 0) + 1
+        chk.note(f"{reported} property failures in total: {by_origin}")
     for stream, meta, res in a_bad[:4]:
         chk.violation("correspondence",
                       {"what": f"implementation and Model_C09 disagree on stream '{stream}' "
